@@ -2,6 +2,7 @@
 #define PHOTOSPLINE_FITSIO_H
 
 #include <string.h>
+#include <cmath>
 
 namespace photospline{
 	
@@ -342,6 +343,15 @@ bool splinetable<Alloc>::read_fits_core(fitsfile* fits, const std::string& fileP
 	//Fix it while copying to the actual array.
 	std::copy(naxes_temp.rbegin(),naxes_temp.rend(),naxes);
 	
+	//Do not trust the header further than it is consistent with itself:
+	//each dimension needs at least order+1 coefficients.
+	for(uint32_t i=0; i<ndim; i++){
+		if(naxes[i] < uint64_t(order[i])+1)
+			throw std::runtime_error("Order "+std::to_string(order[i])+" of dimension "
+			                         +std::to_string(i)+" is not compatible with "
+			                         +std::to_string(naxes[i])+" coefficients");
+	}
+	
 	// Compute the total array size and the strides into each dimension
 	strides = allocate<uint64_t>(ndim);
 	strides[0]=1;
@@ -371,6 +381,10 @@ bool splinetable<Alloc>::read_fits_core(fitsfile* fits, const std::string& fileP
 			throw std::runtime_error("Error reading size of knot vector "+std::to_string(i));
 		if(nknots_temp<=0)
 			throw std::runtime_error("Invalid number of knots ("+std::to_string(nknots_temp)+") in dimension "+std::to_string(i));
+		if(uint64_t(nknots_temp)!=naxes[i]+order[i]+1)
+			throw std::runtime_error("Number of knots ("+std::to_string(nknots_temp)+") in dimension "
+			                         +std::to_string(i)+" does not match the number of coefficients ("
+			                         +std::to_string(naxes[i])+") and the order ("+std::to_string(order[i])+")");
 		nknots[i]=nknots_temp;
 		
 		//Allow spline evaluations to run off the ends of the
@@ -382,6 +396,10 @@ bool splinetable<Alloc>::read_fits_core(fitsfile* fits, const std::string& fileP
 		fits_read_pix(fits, TDOUBLE, &fpix, nknots[i], NULL, &knots[i][0], NULL, &error);
 		if (error != 0)
 			throw std::runtime_error("Error reading knot vector "+std::to_string(i)+" data");
+		for (uint64_t j = 0; j < nknots[i]; j++) {
+			if (!std::isfinite(knots[i][j]) || (j > 0 && knots[i][j] < knots[i][j-1]))
+				throw std::runtime_error("Knot vector "+std::to_string(i)+" is not finite and non-decreasing");
+		}
 	}
 	
 	//Read the axes extents, stored in a single extension HDU.
